@@ -432,6 +432,9 @@ pub struct FaultFail {
 }
 
 pub struct FaultOut {
+    /// clone_from only: for every `Drop` call of the operation, where the destroyed value lived before the operation:
+    /// 1 = in a destination table that the source has too, 2 = in a destination table the source lacks, 0 = elsewhere
+    pub drop_sites: Vec<u8>,
     pub enabled: bool,
     pub calls: [u64; NCB],
     pub fired: bool,
@@ -443,17 +446,26 @@ pub struct FaultOut {
 
 /// One execution: build the base, optionally arm a panic at call `k` of kind `cb` (counted from the start
 /// of the operation), run the operation, run the aftermath, drop everything, judge.
+pub const SITE_NAMES: [&str; 3] = ["elsewhere", "shared-table", "destination-only-table"];
+
 pub fn run_fault(ops: &[Op], base: &[u8], fop: FOp, inject: Option<(Cb, u64)>, aftermath: u8) -> FaultOut {
+    run_fault_at(ops, base, fop, inject, aftermath, None)
+}
+
+/// `site`: for a `Drop` fault inside clone_from, the class of the value whose destructor is armed (from the unfaulted run);
+/// it becomes part of the failure key, so that known findings are matched per site.
+pub fn run_fault_at(ops: &[Op], base: &[u8], fop: FOp, inject: Option<(Cb, u64)>, aftermath: u8, site: Option<u8>) -> FaultOut {
     arena::begin(0);
     comp::ledger_begin();
-    let mut out = FaultOut { enabled: true, calls: [0; NCB], fired: false, reached_caller: false, fails: vec![], notes: vec![], leaked_blocks: 0 };
+    let mut out = FaultOut { drop_sites: Vec::new(), enabled: true, calls: [0; NCB], fired: false, reached_caller: false, fails: vec![], notes: vec![], leaked_blocks: 0 };
     let mut fails: Vec<FaultFail> = Vec::new();
     let mut notes: Vec<String> = Vec::new();
     let kind = fop.kind();
     let cbname = inject.map_or("none".to_string(), |(c, _)| format!("{:?}", c));
     // a fault that is an ordinary error return (not a panic) is outside C17's statement: what it breaks is C05 / C04
     let owner = if inject.map_or(false, |(c, _)| c.is_error_return()) { "C05:" } else { "" };
-    let key = |what: &str| format!("{}{} op={} cb={}", owner, what, kind, cbname);
+    let site_txt = site.map_or(String::new(), |x| format!(" site={}", SITE_NAMES[x as usize]));
+    let key = |what: &str| format!("{}{} op={} cb={}{}", owner, what, kind, cbname, site_txt);
     let r = catch_unwind(AssertUnwindSafe(|| {
         let mut ex = ManuallyDrop::new(build(ops, base));
         let Some(prep) = prepare(&ex, fop, ops) else {
@@ -463,6 +475,27 @@ pub fn run_fault(ops: &[Op], base: &[u8], fop: FOp, inject: Option<(Cb, u64)>, a
         };
         let mut prep = ManuallyDrop::new(prep);
         let mut extra: ManuallyDrop<Vec<W>> = ManuallyDrop::new(Vec::new());
+        // clone_from: where every value of the destination lives, and which tables the source has
+        let mut dst_serial_mask: BTreeMap<u64, u8> = BTreeMap::new();
+        let mut src_masks: std::collections::BTreeSet<u8> = Default::default();
+        if matches!(fop, FOp::CloneFrom(_)) && inject.is_none() {
+            for (_, row) in snapshot(&mut ex.w) {
+                let mask = (0..4).fold(0u8, |m, c| m | ((row[c].is_some() as u8) << c));
+                for x in row.iter().flatten() {
+                    dst_serial_mask.insert(x.1, mask);
+                }
+            }
+            let src: Option<&W> = match fop {
+                FOp::CloneFrom(0) => ex.aux.as_ref(),
+                _ => prep.src.as_ref(),
+            };
+            if let Some(src) = src {
+                for a in &src.verif_dump().archetypes {
+                    src_masks.insert(a.id_bytes.first().copied().unwrap_or(0));
+                }
+            }
+        }
+        let trace0 = comp::with_ledger(|l| l.drop_trace.len()).unwrap_or(0);
         let c0 = comp::calls();
         if let Some((cb, k)) = inject {
             comp::arm(cb, c0[cb as usize] + k);
@@ -470,6 +503,11 @@ pub fn run_fault(ops: &[Op], base: &[u8], fop: FOp, inject: Option<(Cb, u64)>, a
         let r = catch_unwind(AssertUnwindSafe(|| apply_fop(&mut ex, fop, &mut prep, &mut extra)));
         out.fired = comp::fired();
         comp::disarm();
+        if matches!(fop, FOp::CloneFrom(_)) && inject.is_none() {
+            let serials: Vec<u64> = comp::with_ledger(|l| l.drop_trace[trace0.min(l.drop_trace.len())..].to_vec()).unwrap_or_default();
+            let sites: Vec<u8> = serials.iter().map(|s| match dst_serial_mask.get(s) { None => 0, Some(m) if src_masks.contains(m) => 1, Some(_) => 2 }).collect();
+            out.drop_sites = arena::with_system(|| sites.clone());
+        }
         let c1 = comp::calls();
         for i in 0..NCB {
             out.calls[i] = c1[i] - c0[i];
@@ -676,8 +714,9 @@ fn worker_c17(tier: &str, shard: usize, nshards: usize, resume: Option<(usize, u
                             println!("PT {} {} {}", i, cb as usize, executions);
                             executions = 0;
                         }
-                        util::set_crash_descriptor(&format!("engine=fault-c17 job={} cb={} k={} aftermath={} base={:?} fop={:?}", i, cb as usize, k, aftermath, base, fop));
-                        let o = run_fault(&ops, base, fop, Some((cb, k)), aftermath);
+                        let site: Option<u8> = if cb == Cb::Drop && matches!(fop, FOp::CloneFrom(_)) { Some(dry.drop_sites.get(k as usize).copied().unwrap_or(0)) } else { None };
+                        util::set_crash_descriptor(&format!("engine=fault-c17 job={} cb={} k={} aftermath={} site={} base={:?} fop={:?}", i, cb as usize, k, aftermath, site.map_or(9, |x| x), base, fop));
+                        let o = run_fault_at(&ops, base, fop, Some((cb, k)), aftermath, site);
                         executions += 1;
                         leaks += (o.leaked_blocks > 0) as u64;
                         notes += o.notes.len() as u64;
@@ -790,7 +829,8 @@ fn main_c17(tier: &str, threads: usize, evidence: Option<&str>, replay_dir: &str
                             let job = &jobs[j as usize];
                             let fop = fops[job.fop];
                             let cbname = if c < NCB as u64 { format!("{:?}", CB_ALL[c as usize]) } else { "none".to_string() };
-                            let key = format!("process-abort_op={}_cb={}", fop.kind(), cbname);
+                            let site_txt = match get("site=") { Some(x) if (x as usize) < SITE_NAMES.len() => format!("_site={}", SITE_NAMES[x as usize]), _ => String::new() };
+                            let key = format!("process-abort_op={}_cb={}{}", fop.kind(), cbname, site_txt);
                             let detail = line.split("last_panic=").nth(1).unwrap_or("").to_string();
                             let case = format!(
                                 "{{\"engine\":\"fault-c17\",\"tier\":\"{}\",\"base\":{:?},\"fop\":\"{:?}\",\"fop_index\":{},\"inject\":{},\"aftermath\":{}}}",
@@ -890,7 +930,11 @@ fn replay_c17(path: &str) -> i32 {
     let pool = rayon::ThreadPoolBuilder::new().num_threads(1).build().unwrap();
     let out = pool.install(|| {
         arena::init_thread(0);
-        run_fault(&ops, &base, fop, inject, aftermath)
+        let site = match inject {
+            Some((Cb::Drop, k)) if matches!(fop, FOp::CloneFrom(_)) => Some(run_fault(&ops, &base, fop, None, 0).drop_sites.get(k as usize).copied().unwrap_or(0)),
+            _ => None,
+        };
+        run_fault_at(&ops, &base, fop, inject, aftermath, site)
     });
     println!("fired: {}, reached caller: {}, calls during op: {:?}, leaked blocks: {}", out.fired, out.reached_caller, out.calls, out.leaked_blocks);
     for n in &out.notes {
